@@ -22,8 +22,17 @@ class Recorder:
     def __init__(self):
         self.events = []
 
+    RESETS = {'HReset', 'StreamReset', 'CReset', 'RpcReset'}
+
     def add(self, action, props, **fields):
+        if action in self.RESETS:
+            self.session = getattr(self, 'session', 0) + 1
         e = {'id': len(self.events) + 1, 'a': action, 'p': list(props)}
+        if getattr(self, 'session', 0) and (action[0] in 'HC' and action not in ('CutSet', 'CharBlock', 'Construct', 'CatalogEntry',
+                                                                                    'ClassEntry', 'Constants')
+                                            or action in ('Send', 'Deliver', 'TryDecode', 'PeekRead', 'Quiesce', 'StreamReset',
+                                                          'RpcReset', 'RpcSend', 'RpcRecv')):
+            e['session'] = self.session
         e.update(fields)
         self.events.append(e)
         return e
